@@ -386,12 +386,12 @@ func (r *router) addRealm(config *RealmConfig) (*realm, error) {
 	if err != nil {
 		return nil, err
 	}
-	realm, err := newRealm(
-		config,
-		broker,
-		newDealer(r.log, config.StrictURI, config.AllowDisclose, r.debug),
-		r.log, r.debug)
+	dealer := newDealer(r.log, config.StrictURI, config.AllowDisclose, r.debug)
+	realm, err := newRealm(config, broker, dealer, r.log, r.debug)
 	if err != nil {
+		// Stop the goroutines already started for the realm.
+		dealer.close()
+		broker.close()
 		return nil, err
 	}
 	r.realms[config.URI] = realm
